@@ -95,11 +95,21 @@ func genCase(t *rapid.T) Case {
 	// (ids that are names the shard manager itself uses on disk are users like any other, and so are ids of
 	// several "/"-separated parts: the owner of a user is computed from the whole id everywhere; no id in
 	// the pool is a "/"-prefix of another, which is what keeps the key prefixes of two users apart)
-	users := []string{"user1", "user10", "user2", "u", "alice", "user1x", "bob", "sharddb.bbolt", "userCollections", "sharddb.bbolt.backup", "org7/alice", "a/b/c"}
+	users := []string{"user1", "user10", "user2", "u", "alice", "user1x", "bob", "sharddb.bbolt", "userCollections", "sharddb.bbolt.backup", "org7/alice", "a/b/c",
+		// two ids with the same 64-bit xxhash (routing hashes key+server, so their owners differ all the same;
+		// anything that remembers an owner per hash of the key would confuse them)
+		"alice00000000042", "Xjqaaaaayfo5aO0K"}
 	nc := rapid.IntRange(1, 5).Draw(t, "ncols")
 	seen := map[string]bool{}
+	twins := rapid.IntRange(0, 5).Draw(t, "twins") == 0 // both ids of the colliding pair own a collection
+	if twins && nc < 2 {
+		nc = 2
+	}
 	for i := 0; i < nc; i++ {
 		cs := ColSpec{User: rapid.SampledFrom(users).Draw(t, fmt.Sprintf("user%d", i)), Col: rapid.SampledFrom([]string{"abc", "col1", "col2"}).Draw(t, fmt.Sprintf("col%d", i)), Points: rapid.IntRange(0, 5).Draw(t, fmt.Sprintf("np%d", i))}
+		if twins && i < 2 {
+			cs.User = users[len(users)-2+i]
+		}
 		if seen[cs.User+"/"+cs.Col] {
 			continue
 		}
